@@ -24,10 +24,11 @@ import (
 )
 
 type Job struct {
-	Kind string // import | merge | tag | convert
-	Seq  int    // creation order
-	Gate string // begin | done
-	Args []any
+	Kind  string // import | merge | tag | convert
+	Seq   int    // creation order (two jobs started by one closure race for it: never used for ordering)
+	Epoch int    // number of harness steps before the one during which the job began
+	Gate  string // begin | done
+	Args  []any
 	// BeginArgs are the arguments of the begin gate (the index snapshot the job holds until its
 	// completion has been applied)
 	BeginArgs []any
@@ -37,6 +38,15 @@ type Job struct {
 	release     chan struct{}
 	// completing: released from its done gate, its completion closure has not finished yet
 	completing bool
+}
+
+// jobLess orders jobs oldest first; jobs started during the same harness step (one closure of the
+// service loop can start an import, a tagging, a conversion and a merge job) are ordered by kind.
+func jobLess(a, b *Job) bool {
+	if a.Epoch != b.Epoch {
+		return a.Epoch < b.Epoch
+	}
+	return a.Kind < b.Kind
 }
 
 func (j *Job) Name() string { return fmt.Sprintf("%s#%d.%s", j.Kind, j.Seq, j.Gate) }
@@ -72,6 +82,17 @@ type World struct {
 	// FutureMarks: mark tag -> ids that were marked (AddTag) before a stream with that id existed
 	FutureMarks map[string]map[uint64]bool
 	free        atomic.Pointer[freeMode]
+	// tag jobs begun so far and the tag the last one was started for (which of several waiting tags the
+	// service evaluates next is decided by Go's map iteration: an environment choice, see Apply)
+	tagBegins    int
+	lastTagBegin string
+	// LastPick / LastCands: the tag picked by a tagging job that started during the last Apply and the
+	// tags that were eligible at that moment (sorted); empty when no tagging job started
+	LastPick  string
+	LastCands []string
+	// wantPick: while an event that names its pick is applied, every other eligible tag is passed over
+	wantPick string
+	epoch    int
 }
 
 // freeMode: the gates are switched off.  A point does nothing that synchronises goroutines with
@@ -174,6 +195,33 @@ func init() {
 	})
 }
 
+func init() {
+	verifhook.SetSkipHandler(func(owner any, name string, args ...any) bool {
+		if name != "tag.pick" || len(args) == 0 {
+			return false
+		}
+		x, ok := worlds.Load(owner)
+		if !ok {
+			if _, gone := retired.Load(owner); gone {
+				return false
+			}
+			a := adopting.Load()
+			if a == nil {
+				return false
+			}
+			x = a
+		}
+		w := x.(*World)
+		if w.free.Load() != nil {
+			return false
+		}
+		tn, _ := args[0].(string)
+		w.mu.Lock()
+		defer w.mu.Unlock()
+		return !w.closed && w.wantPick != "" && tn != w.wantPick
+	})
+}
+
 func (w *World) point(name string, args []any) {
 	kind, gate, _ := strings.Cut(name, ".")
 	w.mu.Lock()
@@ -189,8 +237,14 @@ func (w *World) point(name string, args []any) {
 	}
 	switch gate {
 	case "begin":
-		j := &Job{Kind: kind, Seq: w.jobSeq, Gate: "begin", Args: args, BeginArgs: args, release: make(chan struct{}), InputDigest: inputDigest(args)}
+		j := &Job{Kind: kind, Seq: w.jobSeq, Epoch: w.epoch, Gate: "begin", Args: args, BeginArgs: args, release: make(chan struct{}), InputDigest: inputDigest(args)}
 		w.jobSeq++
+		if kind == "tag" && len(args) != 0 {
+			if n, ok := args[0].(string); ok {
+				w.tagBegins++
+				w.lastTagBegin = n
+			}
+		}
 		if old := w.parked[kind]; old != nil && !old.completing {
 			w.Errors = append(w.Errors, fmt.Sprintf("second %s job began while %s is parked", kind, old.Name()))
 		}
@@ -208,7 +262,7 @@ func (w *World) point(name string, args []any) {
 		j := w.parked[kind]
 		if j == nil {
 			// job began before the world took control
-			j = &Job{Kind: kind, Seq: w.jobSeq}
+			j = &Job{Kind: kind, Seq: w.jobSeq, Epoch: w.epoch}
 			w.jobSeq++
 			w.parked[kind] = j
 		}
@@ -380,7 +434,7 @@ func (w *World) ParkedNames() []string {
 	for _, j := range w.parked {
 		js = append(js, j)
 	}
-	sort.Slice(js, func(i, k int) bool { return js[i].Seq < js[k].Seq })
+	sort.Slice(js, func(i, k int) bool { return jobLess(js[i], js[k]) })
 	out := make([]string, len(js))
 	for i, j := range js {
 		out[i] = j.Kind
@@ -398,6 +452,7 @@ func (w *World) Parked(kind string) *Job {
 // has been applied, then settles.
 func (w *World) Step(kind string) error {
 	w.mu.Lock()
+	w.epoch++
 	j := w.parked[kind]
 	if j == nil {
 		w.mu.Unlock()
